@@ -1046,6 +1046,21 @@ def run_meta(ctx):
             ctx.check(False, 'meta.missing_partition_name_accepted', dict(names=names))
           except errors.PartitioningUnspecifiedError:
             ctx.check(True, 'meta.missing_partition_name_accepted')
+        # the partition name may equal an entry that is already there (metadata_params={PARTITION_NAME: None} is documented;
+        # a repeated string name is legal too): removal is by POSITION, never by value
+        n_log = len(LOG)
+        for pname in (None, names[0] if names else P2):
+          pp = {meta.PARTITION_NAME: pname}
+          want_d = ref_insert(names, idx, pname)
+          yd = cls(val, names).add_axis(idx, pp)
+          ctx.check(tuple(yd.names) == want_d, 'meta.add_axis:duplicate_partition_name', lambda: dict(names=names, index=idx, pname=pname, got=yd.names, want=want_d))
+          try:
+            zd = yd.remove_axis(idx, pp)
+            ctx.check(tuple(zd.names) == tuple(names), 'meta.inverse:duplicate_partition_name',
+                      lambda: dict(cls=cls.__name__, names=names, index=idx, pname=pname, added=yd.names, removed=zd.names))
+          except Exception as e:  # noqa: BLE001
+            ctx.check(False, 'meta.inverse:duplicate_partition_name:raises', dict(names=names, index=idx, pname=pname, error=repr(e)))
+        del LOG[n_log:]  # the hook-level size checks assume the distinct partition names P1/P2
       drain_hooks(ctx, 'linen', True)
       del LOG[:]
       # partial-rank names (fewer names than dimensions), index beyond them, k >= 0: only names[index] == p and order are demanded
@@ -1081,6 +1096,23 @@ def run_meta(ctx):
         ctx.check(gb is not None and tuple(gb) == tuple(names) and 'sharding' not in back['u'].get_metadata(),
                   'nnx.negative_axis_misaligned:unit_inverse' if idx < 0 else 'nnx.meta.inverse',
                   lambda: dict(names=names, index=idx, got=gb))
+      n_log = len(LOG)
+      for pname in (None, names[0] if names else P2):
+        # partition name equal to an existing entry: removal is by position (see the Linen part above)
+        st_d = nnx.State({'w': nnx.VariableState(type=nnx.Param, value=inner_val, sharding=tuple(names))})
+        tmd = {nnx.PARTITION_NAME: pname}
+        out_d = nspmd.add_axis(st_d, idx, tmd)
+        want_d = ref_insert(names, idx, pname)
+        gd_ = out_d['w'].get_metadata().get('sharding')
+        ctx.check(gd_ is not None and tuple(gd_) == want_d, 'nnx.meta.add_axis:duplicate_partition_name', lambda: dict(names=names, index=idx, pname=pname, got=gd_))
+        try:
+          back_d = nspmd.remove_axis(out_d, idx, tmd)
+          gb_ = back_d['w'].get_metadata().get('sharding')
+          ctx.check(gb_ is not None and tuple(gb_) == tuple(names), 'nnx.meta.inverse:duplicate_partition_name',
+                    lambda: dict(names=names, index=idx, pname=pname, got=gb_))
+        except Exception as e:  # noqa: BLE001
+          ctx.check(False, 'nnx.meta.inverse:duplicate_partition_name:raises', dict(names=names, index=idx, pname=pname, error=repr(e)))
+      del LOG[n_log:]
       if i % 7 == 0:
         try:
           nspmd.add_axis(st, idx, {})
